@@ -348,7 +348,10 @@ class TreeRun(object):
             new.setup_from_parent()
             # nothing else: like the integer-positions flag, the commission function of the tree it joins is the new strategy's too
             mc.exists = True
-            root.update(self.now())
+            # the creator brings the new strategy up to date (as the repository's dynamic-strategy tests do) - unless a refresh of
+            # the whole tree is pending anyway, which the next read performs: creating a node does not change what is pending
+            if not root.stale:
+                new.update(s.now)
             return True
         if kind == "adjust":
             amt = op[2] * cap
